@@ -81,6 +81,16 @@ fn label_set(ctx: &mut Ctx, g: &GenSet) -> bool {
     if g.list.len() > g.set.len() {
         ctx.label("set:list-has-duplicates");
     }
+    if g.set.len() >= 3 {
+        // a member equal to the model's hash of the other members' sub-tree
+        for (i, m) in g.set.iter().enumerate() {
+            let rest: Vec<Leaf> = g.set.iter().enumerate().filter(|(j, _)| *j != i).map(|(_, x)| *x).collect();
+            if rest.iter().all(|x| model::bit(x, 0) != model::bit(m, 0)) && (model::set_val(&rest, 1).hash == *m || set_root(&rest) == *m) {
+                ctx.label("set:leaf-equals-hash-of-sibling-subtree");
+                break;
+            }
+        }
+    }
     if g.set.len() >= 2 {
         if st.max_shared >= 8 {
             ctx.label("set:shared-prefix>=8");
@@ -1180,6 +1190,7 @@ pub fn run_main() {
                     "cmp:honest-proof-vs-neighbour-set-root",
                     "cmp:honest-proof>=8000-bytes",
                     "set:staircase-41..257",
+                    "set:leaf-equals-hash-of-sibling-subtree",
                 ],
             },
             SubCheck {
